@@ -275,6 +275,23 @@ def generate(repo: Path, out: Path):
     L.append("def scalarAttrs : List String := [" + ", ".join(lean_str(a) for a in sorted(scalar_attrs)) + "]")
     L.append("/-- `Workspace.close` writes the project attributes (`_io_call(H5Writer.write_attributes, self, mode=\"r+\")`) -/")
     L.append("def closeWritesHeader : Bool := " + ("true" if close_writes_header(repo) else "false"))
+    # classes whose `centroids` getter keeps its result in `self._centroids`, and their subclasses
+    cache_owners = []
+    for c in classes:
+        for k in c.__mro__:
+            member = vars(k).get("centroids")
+            if isinstance(member, property) and member.fget is not None:
+                try:
+                    tree = ast.parse(textwrap.dedent(inspect.getsource(member.fget)))
+                except (OSError, TypeError, SyntaxError):
+                    break
+                caches = any(isinstance(n, ast.Attribute) and n.attr == "_centroids" and isinstance(n.ctx, ast.Store)
+                             for n in ast.walk(tree))
+                if caches:
+                    cache_owners.append(c.__name__)
+                break
+    L.append("/-- classes whose `centroids` getter caches its result in `_centroids` (and their subclasses) -/")
+    L.append("def centroidCacheOwners : List String := [" + ", ".join(lean_str(a) for a in sorted(set(cache_owners))) + "]")
     L.append("/-- array / structured fields of KEY_MAP that have a setter -/")
     L.append("def arrayFields : List String := [" + ", ".join(lean_str(a) for a in sorted(array_fields)) + "]")
     L += ["", "end GeoVerif.Gen", ""]
